@@ -383,6 +383,13 @@ TARGETS = [
                   funcs={"Vec::with_capacity": "[]", "Self": "{0}"},
                   for_counts={"property_count": "property_count"},
                   loop_vars=[("properties", "List (Nat × SrcPropertyKind × List UInt8)")])),
+    # ---- the creator's storage-class decision
+    dict(name="detectCompression", group="Content", file="src/creator/content_pack/creator.rs", fn="detect_compression",
+         enums=[dict(rust="CompHint", file="src/creator/content_pack/mod.rs", lean="SrcCompHint", types={})],
+         cfg=dict(params=[("compressionIsNone", "Bool"), ("comp_hint", "SrcCompHint"), ("entropyLow", "Bool")], ret="Bool",
+                  self_fields={"compression": "compressionIsNone"}, patterns={"Compression::None": "true"},
+                  funcs={"Vec::with_capacity": "()", "shannon_entropy": "()"},
+                  exprs={"entropy <= 6.0": "entropyLow"}, ignore_stmts=["content."], block_match=True)),
 ]
 
 
